@@ -128,6 +128,27 @@ type c17Case struct {
 	StateErr     []int64  `json:"state_failure_toggles_ns"` // the State's forwarding read starts / stops failing at these instants
 	Autoconf     []bool   `json:"autoconf"`                 // kernel autoconf value per interface (cyclic)
 	Overlap      bool     `json:"overlapping_scrapes"`      // every probe also runs three scrapes that overlap in time
+	// C01's advertiser half only: the interface is re-created between dials and comes back with another hardware
+	// address (1: another 48-bit one per dial; 2: none on odd dials; 3: an 8-byte one on odd dials)
+	MACMode int `json:"mac_mode,omitempty"`
+}
+
+// macOf is the hardware address the n-th dial of an interface reports under the case's MACMode.
+func (c c17Case) macOf(iface string, n int) net.HardwareAddr {
+	m := vkMACFor(iface)
+	switch c.MACMode {
+	case 1:
+		m[3] = byte(n)
+	case 2:
+		if n%2 == 1 {
+			return nil
+		}
+	case 3:
+		if n%2 == 1 {
+			return net.HardwareAddr{2, 0, 0, 0xff, 0xfe, 0, 0, byte(n)}
+		}
+	}
+	return m
 }
 
 type c17Probe struct {
